@@ -248,6 +248,8 @@ class RemapRules:
         self._R, self._frm, self._to = R, frm, to
 
     def _m(self, rid):
+        if self._frm.endswith(".") and rid.startswith(self._frm):
+            return self._to + rid[len(self._frm):]      # a whole family: C12.iter -> C06.input-iter
         return self._to if rid == self._frm else rid
 
     def __getattr__(self, name):
